@@ -410,7 +410,7 @@ def check(ctx, rep):
     for P in ctx.protocol_classes():
         ro = prog.resolve_method(P, "renderobjinfo")
         h = prog.resolve_method(P, "handle")
-        if ro is None or h is None or ro.cls is not P:
+        if ro is None or h is None or not ctx.owns(P, ro):
             continue
         QUOTES = ("urllib.parse.quote", "urllib.parse.quote_plus", "urllib.parse.quote_from_bytes")
         encs = [(c, t) for c, t in eff.calls_of(ro, P) if t.kind == "ext" and t.ext in QUOTES]
@@ -477,7 +477,12 @@ def check(ctx, rep):
         seen_prov = set()
         from ..structure import inline_attr_setters
 
-        for pth in _W(prog, ctx.resolver, merge_loops=True, inline=inline_attr_setters(prog, "self.selector")).run(h, P):
+        _NOIN = ("write_status", "writedir", "gethandler", "renderobjinfo", "log", "adjust_mimetype", "adjustmimetype", "filenotfound", "headerslurp",
+                 "handlerwrite", "renderdirstart", "renderdirend", "renderabstract", "canhandlerequest", "getrenderstr", "slashnormalize")
+        _setters = inline_attr_setters(prog, "self.selector")
+        for pth in _W(prog, ctx.resolver, merge_loops=True,
+                      inline=lambda fn, t, d: _setters(fn, t, d) or (d < 3 and t.bound_cls is not None and fn.name not in _NOIN and fn.cls is not None
+                                                                     and fn.cls.module.name.startswith("pygopherd.protocols"))).run(h, P):
             reached = [e for e in pth.events if e.kind == "call" and isinstance(e.node.func, ast.Attribute) and e.node.func.attr == "gethandler"]
             if not reached:
                 continue
